@@ -176,7 +176,10 @@ def heavy_round(ctx: Ctx, workers: int, schedule: str):
             tuple(sim.merged))
 
 
-def round_case(ctx: Ctx, rng, workers: int, parallel: bool = True):
+LAST_ROUND: dict = {}
+
+
+def round_case(ctx: Ctx, rng, workers: int, parallel: bool = True, fail_all: bool = False):
     """one real connection round under scripted searches; returns (merge order of record tokens,
     completion order of the searched pairs, per-pair outcome tokens, network digest)"""
     from topsearch.data.coordinates import StandardCoordinates
@@ -193,7 +196,7 @@ def round_case(ctx: Ctx, rng, workers: int, parallel: bool = True):
         key = (float(a), float(b))
         delays[key] = rng.choice([0.0, 0.02, 0.05, 0.09])
         r = rng.random()
-        if r < 0.3:
+        if r < 0.3 or fail_all:
             toks.append("x")                              # failed search
         else:
             e = 2.0 + j / 16
@@ -209,6 +212,8 @@ def round_case(ctx: Ctx, rng, workers: int, parallel: bool = True):
     ns = NetworkSampling(k, coords, None, ScriptedHEF(outcomes), ScriptedNEB(delays, log), sim,
                          multiprocessing_on=parallel, n_processes=workers)
     ns.run_connection_attempts([list(p) for p in pairs])
+    LAST_ROUND.clear()
+    LAST_ROUND.update(pairs=[sorted(p) for p in pairs], history=np.asarray(k.pairlist).reshape(-1, 2).tolist())
     order = []
     for line in open(log).read().splitlines():
         a, b = line.split()
@@ -275,6 +280,51 @@ def run_pipe(kind: str, seed: int, hashseed: str) -> str:
     return "ERROR " + (p.stderr.strip().splitlines() or ["no output"])[-1][:200]
 
 
+def _worker_draws(_):
+    """what a forked worker draws from the library's own random sources (runs in the child)"""
+    import hashlib
+    from topsearch.data.coordinates import AtomicCoordinates, StandardCoordinates
+    from topsearch.similarity.molecular_similarity import MolecularSimilarity
+    from topsearch.transition_states.hybrid_eigenvector_following import HybridEigenvectorFollowing
+    h = hashlib.sha256()
+    pts = np.array([[0.0, 0.0, 0.0], [1.1, 0.0, 0.0], [1.1, 1.1, 0.0], [0.0, 1.1, 0.3], [0.4, 0.2, 1.1]])
+    sim = MolecularSimilarity(0.1, 0.05, weighted=False)
+    for _k in range(3):
+        h.update(np.asarray(sim.random_rotation(pts.flatten().copy()), dtype=float).tobytes())
+    c1 = AtomicCoordinates(['C'] * 5, pts.flatten().copy())
+    other = (pts[[2, 0, 1, 4, 3]] @ np.array([[0.0, -1.0, 0.0], [1.0, 0.0, 0.0], [0.0, 0.0, 1.0]]) + 0.3).flatten()
+    d, a, b, perm = sim.optimal_alignment(c1, other.copy())
+    h.update(np.float64(d).tobytes()); h.update(np.asarray(b, dtype=float).tobytes()); h.update(np.asarray(perm, dtype=np.int64).tobytes())
+    hef = HybridEigenvectorFollowing(None, 1e-4, 10, 0.1)
+    h.update(np.asarray(hef.generate_random_vector(6), dtype=float).tobytes())
+    sc = StandardCoordinates(ndim=3, bounds=[(-1.0, 1.0)] * 3)
+    h.update(np.asarray(sc.generate_random_point(), dtype=float).tobytes())
+    return h.hexdigest()
+
+
+def forked_worker_predicate(ctx: Ctx) -> None:
+    """"with the random generators seeded identically … bit-identical networks on every run" inside the workers of a
+    parallel round: a forked worker inherits the generators' state, so with identical seeds in the parent every run
+    of a worker draws the same rotations / start vectors / points.  Observed through the library's own sources of
+    randomness reachable from `connection_attempt` (random restart rotations of the alignment, the start vector of
+    the curvature search, random points)."""
+    import multiprocessing
+    import random
+    for seed in (ctx.seed % 1000 + 1, ctx.seed % 1000 + 2):
+        digests = []
+        for _run in range(3):
+            random.seed(seed)
+            np.random.seed(seed)
+            with multiprocessing.get_context("fork").Pool(processes=1) as pool:
+                digests.append(pool.map(_worker_draws, [0, 1]))
+        ctx.stats.case({"pred": "forked-worker-reproducible", "seed": seed, "digests": [d[0][:8] for d in digests]}, True)
+        if len({tuple(d) for d in digests}) != 1:
+            ctx.fail("worker-draws-not-reproducible", f"with random.seed({seed}) and np.random.seed({seed}) in the parent, three "
+                     f"identically seeded parallel runs (pool of one worker) drew different random rotations / start "
+                     f"vectors inside the worker: {[d[0][:12] for d in digests]}", {"forked": True, "seed": seed})
+            return
+
+
 def group_order_predicate(ctx: Ctx) -> None:
     from topsearch.data.coordinates import AtomicCoordinates
     from topsearch.similarity.molecular_similarity import MolecularSimilarity
@@ -316,10 +366,18 @@ def predicates(ctx: Ctx) -> None:
     for _ in range(ctx.scale(4, 24) * (3 if deep else 1)):
         s = rng.randrange(1 << 30)
         results = []
+        fail_all = _ % 4 == 3            # a batch in which no search finds anything is still a batch that was attempted
         for workers in rng.sample([1, 2, 3, 4, 6, 8, 12, 16], ctx.scale(3, 5)):
             r = random.Random(s)
-            merged, order, toks, digest = round_case(ctx, r, workers)
+            merged, order, toks, digest = round_case(ctx, r, workers, fail_all=fail_all)
             results.append((workers, order, digest, toks))
+            # merging in list order records every pair of the batch in the attempt history, found something or not
+            if LAST_ROUND["history"] != LAST_ROUND["pairs"]:
+                ctx.fail("parallel-round-history", f"parallel round over the pairs {LAST_ROUND['pairs']} with outcomes {toks} "
+                         f"({workers} workers): the attempt history afterwards is {LAST_ROUND['history']}; merging the "
+                         f"outcomes in list order records every pair of the batch",
+                         {"round_seed": s, "workers": [workers], "fail_all": fail_all, "history": True})
+                break
         ctx.stats.case({"pred": "parallel-round", "outcomes": results[0][3],
                         "orders": [x[1] for x in results]}, len({tuple(x[1]) for x in results}) > 1)
         if len({x[2] for x in results}) != 1:
@@ -345,6 +403,7 @@ def predicates(ctx: Ctx) -> None:
     # the hash seed: the assembled permutation and permuted copy must not depend on it — also when the two
     # structures distribute their atoms differently over the groups
     group_order_predicate(ctx)
+    forked_worker_predicate(ctx)
     # (b) bit-identical networks whatever the interpreter's hash seed
     jobs = []
     kinds = [("standard", ctx.seed % 5 + 1), ("atomic", ctx.seed % 3 + 1), ("schwefel", ctx.seed % 7 + 1)]
@@ -379,9 +438,18 @@ def replay(ctx: Ctx, data: dict) -> bool:
         d = heavy_round(ctx, data["workers"], data["schedule"])
         print("  ", d[:3])
         return (d[0], d[1]) == (11, 7)
+    if data.get("forked"):
+        r = forked_worker_predicate(ctx)
+        return not ctx.failures
     if "round_seed" in data:
         import random
-        ds = {round_case(ctx, random.Random(data["round_seed"]), w)[3] for w in data["workers"]}
-        return len(ds) == 1
+        ds = set()
+        ok = True
+        for w in data["workers"]:
+            ds.add(round_case(ctx, random.Random(data["round_seed"]), w, fail_all=data.get("fail_all", False))[3])
+            if LAST_ROUND["history"] != LAST_ROUND["pairs"]:
+                print(f"  history {LAST_ROUND['history']} after the batch {LAST_ROUND['pairs']}")
+                ok = False
+        return len(ds) == 1 and ok
     predicates(ctx)
     return not ctx.failures
